@@ -564,7 +564,7 @@ def load_data(path: Path) -> tuple[NDArray, str, NDArray]:
     its uncertainty."""
     _, _, closed = load_header(path)
 
-    zleft, zright, data, _ = np.loadtxt(path).T
+    zleft, zright, data, _ = np.loadtxt(path, ndmin=2).T
     edges = np.append(zleft, zright[-1])
     return edges, closed, data
 
